@@ -44,14 +44,41 @@ class StubbornFuture(asyncio.Future):
         return True
 
 
+import contextvars
+
+BODY_VAR = contextvars.ContextVar("c01_body_var", default=None)
+
+
+class CheckedLog(list):
+    """the body's event log; an entry made while the ContextVar the body set at its start is not visible
+    (a step of the coroutine ran in another context than its first one) is preceded by ('CTXLOST',)"""
+    owner = None
+
+    def append(self, x):
+        if self.owner is not None and BODY_VAR.get() is not self.owner:
+            list.append(self, ("CTXLOST",))
+        list.append(self, x)
+
+
+def cancel_for_real(f):
+    if isinstance(f, StubbornFuture):
+        asyncio.Future.cancel(f)
+    else:
+        f.cancel()
+
+
 class Env:
     def __init__(self):
-        self.log = []
+        self.log = CheckedLog()
         self.futs = []
         self.coro = None
         self.top = {}
         self.children = {}
         self.raised = []        # exception objects made by `raise` statements of the bodies
+
+    def enter(self):
+        self.log.owner = self
+        BODY_VAR.set(self)
 
     def mk(self, kind):
         e = make_exc(kind)
@@ -68,6 +95,8 @@ def make_futs(loop, spec):
     for s in spec:
         if s == "T":
             f = StubbornFuture(loop=loop)
+        elif s == "Q":
+            f = asyncio.futures._PyFuture(loop=loop)     # the pure-Python Future: not an instance of the C class
         else:
             f = loop.create_future()
         if s[0] == "V":
@@ -167,6 +196,24 @@ def custom_factory(coro):
 factory_calls: list = []
 
 
+def pytask_factory(coro):
+    """a factory making Python-implemented Tasks (what `create_pytask` / debugging set-ups do)"""
+    return asyncio.tasks._PyTask(coro, name="py")
+
+
+def loop_factory_classic(loop, coro):
+    """a loop-level task factory with the classic documented signature `factory(loop, coro)`"""
+    return asyncio.Task(coro, loop=loop)
+
+
+def loop_factory_kw(loop, coro, **kwargs):
+    """a loop-level task factory that accepts and ignores extra keywords"""
+    return CustomTask(coro, loop=loop)
+
+
+LOOP_FACTORIES = {"loopfactory_classic": loop_factory_classic, "loopfactory_kw": loop_factory_kw}
+
+
 class CustomTask(asyncio.Task):
     pass
 
@@ -188,6 +235,8 @@ def start_eager(variant, fn, env):
         return asynkit.coro_eager(env.coro), None
     if variant == "factory":
         return asynkit.eager(env.coro, task_factory=custom_factory), None
+    if variant == "pytask_factory":
+        return asynkit.eager(env.coro, task_factory=pytask_factory), None
     if variant == "eager_ctx":
         cm = asynkit.eager_ctx(env.coro)
         return cm.__enter__(), cm
@@ -195,6 +244,23 @@ def start_eager(variant, fn, env):
         cm = asynkit.cancelling(asynkit.eager(env.coro))
         return cm.__enter__(), cm
     return asynkit.eager(env.coro), None
+
+
+def leave_block(cm, how):
+    """leave the `with` block normally, or by an exception propagating out of it: an Exception, or a
+    BaseException (the CancelledError of the task owning the block; GeneratorExit of a closed generator)"""
+    if how is None:
+        cm.__exit__(None, None, None)
+        return
+    exc = {"E1": EXC_CLS["E1"], "B1": EXC_CLS["B1"], "CA": asyncio.CancelledError, "GE": GeneratorExit}[how]()
+    try:
+        suppressed = cm.__exit__(type(exc), exc, None)
+    except BaseException as e:      # noqa: BLE001
+        if e is not exc:
+            raise
+        suppressed = False
+    if suppressed:
+        raise AssertionError("cancelling() swallowed the exception leaving the block")
 
 
 async def in_callback(loop, how, fn):
@@ -232,6 +298,8 @@ def run_single(case, snapshots=True):
         mark = [0]
         ncancel = [0]
         cm = None
+        if mode == "E" and variant in LOOP_FACTORIES:
+            loop.set_task_factory(LOOP_FACTORIES[variant])
         if mode == "E":
             try:
                 caller = case.get("caller", "task")
@@ -282,14 +350,14 @@ def run_single(case, snapshots=True):
                 if not f.done():
                     f.set_exception(EXC_CLS[ev[2]]())
             elif op == "cf":
-                asyncio.Future.cancel(env.futs[ev[1]])
+                cancel_for_real(env.futs[ev[1]])
             elif op == "clr":
                 env.futs[ev[1]]._asyncio_future_blocking = False
             elif op == "cancel":
                 # inside an eager_ctx()/cancelling() block the `exit_at`-th cancel event is the block
                 # exit; cancels before it are t.cancel() calls made inside the block
                 if cm is not None and ncancel[0] >= case.get("exit_at", 0):
-                    cm.__exit__(None, None, None)
+                    leave_block(cm, case.get("exit_exc"))
                     cm = None
                 else:
                     t.cancel()
@@ -361,6 +429,9 @@ def run_multi(case):
             child_envs[j] = e
             kids[j] = start(compile_body(case["children"][j]), e)
 
+        if mode == "E" and variant in LOOP_FACTORIES:
+            loop.set_task_factory(LOOP_FACTORIES[variant])
+
         def start_all():
             for i, p in enumerate(case["progs"]):
                 e = mkenv()
@@ -384,7 +455,7 @@ def run_multi(case):
                 if not futs[ev[1]].done():
                     futs[ev[1]].set_exception(EXC_CLS[ev[2]]())
             elif op == "cf":
-                asyncio.Future.cancel(futs[ev[1]])
+                cancel_for_real(futs[ev[1]])
             elif op == "cancel":
                 top[ev[1]].cancel()
         res["logs"] = [log_text(e.log) for e in envs]
